@@ -94,10 +94,11 @@ def replay(graph: Graph, init_key: str, make_impl, *, budget: int | None, rng: r
             # stratified sample: keep every class of operation represented
             chosen = [x for x in ops if rng.random() < frac]
             seen = {op_class(x[0]) for x in chosen}
-            for x in ops:
-                if op_class(x[0]) not in seen:
-                    chosen.append(x)
-                    seen.add(op_class(x[0]))
+            if budget is None or stats.edges < 1.5 * budget:
+                for x in ops:
+                    if op_class(x[0]) not in seen:
+                        chosen.append(x)
+                        seen.add(op_class(x[0]))
             ops = chosen
         if not ops:
             continue
